@@ -31,6 +31,11 @@ def pair_corpus():
     return P
 
 
+def proj(ob):
+    """observation of one slot as LexerAPI.Obs prints it: kind, spanned, start, end, extras, buffer"""
+    return ob[:5] + [ob[7]]
+
+
 def api_run(name, tier, seed, cfgs):
     t0 = time.time()
     defs = pair_corpus()
@@ -66,19 +71,39 @@ def api_run(name, tier, seed, cfgs):
         otd["twin"] = td["idx"]
         pairs.append((len(pairs) + 1, td["idx"], otd["idx"], m["utf8"]))
     blob = "\n".join(json.dumps(td) for td in tla_defs) + "\n"
-    key = sha(blob, harness_hash(), tier, str(seed), ",".join(cfgs))[:16]
+    key = sha(blob, harness_hash(), tier, str(seed), ",".join(cfgs), open(__file__).read())[:16]
     cache = os.path.join(workdir(), "api-%s-%s.json" % (name, key))
     if os.path.exists(cache):
         return json.load(open(cache))
     api_defs = os.path.join(capdir, "defs_api_%s.ndjson" % key)
     with open(api_defs, "w") as f:
         f.write(blob)
-    res = run_tlc("LexerAPI.tla", "LexerAPI.cfg", {"DEFS": api_defs, "MAXLEN": str(maxlen), "MAXOPS": str(maxops)}, workers=8,
+    # two explorations: the histories over one source buffer up to maxops operations, and - one operation shorter - the
+    # histories in which a lexer over a SECOND buffer takes part (f = fresh lexer over buffer 2, k = clone_from)
+    res = run_tlc("LexerAPI.tla", "LexerAPI.cfg", {"DEFS": api_defs, "MAXLEN": str(maxlen), "MAXOPS": str(maxops), "FRESH": "0"}, workers=8,
                   metaname="api", timeout=6000, xss="512m")
     if not res["ok"]:
         raise ToolError("LexerAPI.tla: SpanInv violated at specification level:\n" + res["out"][-3000:])
     recs = [r[2] for r in tlc_records(res) if r[0] == "API"]
     log("[api] TLC %d states, %d distinct, %d states with operations, %.1fs" % (res["states"], res["distinct"], len(recs), res["wall"]))
+    res2 = run_tlc("LexerAPI.tla", "LexerAPI.cfg", {"DEFS": api_defs, "MAXLEN": str(maxlen), "MAXOPS": str(maxops - 1), "FRESH": "1"}, workers=8,
+                   metaname="api2", timeout=6000, xss="512m")
+    if not res2["ok"]:
+        raise ToolError("LexerAPI.tla (second buffer): SpanInv violated at specification level:\n" + res2["out"][-3000:])
+    n2 = 0
+    for r in tlc_records(res2):
+        if r[0] != "API":
+            continue
+        rec = r[2]
+        if not any(h.startswith("f") for h in rec["hist"]):
+            rec["ops"] = [o for o in rec["ops"] if o[0].startswith("f")]      # the rest is part of the first exploration
+        if rec["ops"]:
+            recs.append(rec)
+            n2 += 1
+    if n2 == 0:
+        raise ToolError("LexerAPI.tla: no history with a second buffer was enumerated")
+    log("[api] second buffer: TLC %d states, %d distinct, %d states kept, %.1fs" % (res2["states"], res2["distinct"], n2, res2["wall"]))
+    res = dict(res, states=res["states"] + res2["states"], distinct=res["distinct"] + res2["distinct"], wall=res["wall"] + res2["wall"])
     bins = build_subjects(metas, cfgs, name, pairs=pairs)
     pidx_of = {ia: p for (p, ia, ib, s) in pairs}
     requests = []
@@ -88,9 +113,13 @@ def api_run(name, tier, seed, cfgs):
         for c in rec["chars"]:
             data.extend(cb[c - 1])
         hexd = bytes(data).hex()
+        data2 = []
+        for c in rec["chars"][1:] + rec["chars"][:1]:      # buffer 2 of LexerAPI.tla: the same characters rotated by one
+            data2.extend(cb[c - 1])
+        hexd2 = bytes(data2).hex()
         ops = sorted(rec["ops"], key=lambda o: o[0])
         script = ";".join(rec["hist"] + ["P" + "|".join(o[0] for o in ops)])
-        requests.append(("S %d %s %s %s" % (pidx_of[rec["d"]], "p" if rec["partial"] else "f", hexd, script),
+        requests.append(("S %d %s %s %s %s" % (pidx_of[rec["d"]], "p" if rec["partial"] else "f", hexd, script, hexd2),
                          {"d": rec["d"], "data": hexd, "partial": rec["partial"], "hist": rec["hist"], "ops": ops, "obs0": rec["obs"]}))
     n_hist = sum(len(i["ops"]) for (l, i) in requests)
     log("[api] %d states, %d histories (state x operation) x %d configurations" % (len(requests), n_hist, len(cfgs)))
@@ -113,7 +142,7 @@ def api_run(name, tier, seed, cfgs):
                     if ob[0] != "-" and not (ob[5] and ob[6]):
                         add("bump" if info["hist"][k].startswith("b") else "api", ";".join(info["hist"][: k + 1]),
                             "slice()/remainder() disagree with source[span()] : %s" % (ob,), None, o)
-            if nh and [list(x) for x in info["obs0"]] != [ob[:5] for ob in rep["ops"][nh - 1]["obs"]]:
+            if nh and [list(x) for x in info["obs0"]] != [proj(ob) for ob in rep["ops"][nh - 1]["obs"]]:
                 continue    # the history already diverged: reported at the state where it first did
             for (op, res_exp, obs_exp), o in zip(info["ops"], rep["ops"][nh:]):
                 script = ";".join(info["hist"] + [op])
@@ -127,7 +156,7 @@ def api_run(name, tier, seed, cfgs):
                     why = "result: expected %s got %s" % (res_exp, r)
                 if why is None and op.startswith("n") and list(r) != list(res_exp):
                     why = "item: expected %s got %s" % (res_exp, r)
-                got_obs = [ob[:5] for ob in o["obs"]]
+                got_obs = [proj(ob) for ob in o["obs"]]
                 if why is None and [list(x) for x in obs_exp] != got_obs:
                     why = "observation: expected %s got %s" % (obs_exp, got_obs)
                 if why:
